@@ -114,8 +114,13 @@ fn hist_json(h: &[Rev]) -> Value {
 
 /// Producer A: render the history with the reference writer and load the complete file.
 fn check_a(bk: usize, style: Style, hist: &[Rev], container_base: bool, selfcheck: bool) -> Result<(), (bool, String)> {
+    check_a_order(bk, style, hist, container_base, selfcheck, 0)
+}
+
+/// `member_order`: how object streams list their members (0 ascending, 1 descending, 2 rotated)
+fn check_a_order(bk: usize, style: Style, hist: &[Rev], container_base: bool, selfcheck: bool, member_order: usize) -> Result<(), (bool, String)> {
     let spec = spec_of(bk, style, hist, container_base);
-    let mut ch = Chooser::new();
+    let mut ch = if member_order == 0 { Chooser::new() } else { Chooser::with_classes(&[("os.member_order", member_order)]) };
     let (bytes, lay) = refpdf::write(&spec, &mut ch);
     let expected = refpdf::expected_objects(&spec, &lay, spec.sections.len());
     if selfcheck {
@@ -268,6 +273,135 @@ fn check_b(bk: usize, table: bool, hist: &[Rev]) -> Result<(), String> {
     Ok(())
 }
 
+// ---------------------------------------------------------------------------------------------
+// Producer L: a base file laid out like a linearized PDF - its newest cross-reference section sits
+// at the FRONT of the file (before the objects it lists) and chains through Prev to the main
+// section at the end - followed by ordinary appended revisions.
+
+fn table_section(entries: &BTreeMap<u32, (usize, u16)>, with_zero: bool) -> Vec<u8> {
+    // maximal runs of consecutive numbers, 20-byte entries
+    let mut nums: Vec<u32> = entries.keys().cloned().collect();
+    if with_zero {
+        nums.insert(0, 0);
+    }
+    let mut out = b"xref\n".to_vec();
+    let mut i = 0;
+    while i < nums.len() {
+        let mut j = i;
+        while j + 1 < nums.len() && nums[j + 1] == nums[j] + 1 {
+            j += 1;
+        }
+        out.extend_from_slice(format!("{} {}\n", nums[i], j - i + 1).as_bytes());
+        for n in &nums[i..=j] {
+            if *n == 0 && with_zero {
+                out.extend_from_slice(b"0000000000 65535 f \n");
+            } else {
+                let (off, gen) = entries[n];
+                out.extend_from_slice(format!("{:010} {:05} n \n", off, gen).as_bytes());
+            }
+        }
+        i = j + 1;
+    }
+    out
+}
+
+/// Returns (bytes, expected objects). Group A = the designated objects (listed by the front
+/// section), group B = everything else (listed by the main section at the end).
+fn linearized_history(bk: usize, hist: &[Rev]) -> (Vec<u8>, BTreeMap<ObjectId, Object>) {
+    let (objects, trailer, designated) = base(bk);
+    let mut model = objects.clone();
+    let size = objects.keys().map(|k| k.0).max().unwrap() + 1;
+    let a: Vec<ObjectId> = designated.clone();
+    let b: Vec<ObjectId> = objects.keys().filter(|k| !a.contains(k)).cloned().collect();
+    let mut f = b"%PDF-1.6\n%\xe2\xe3\xcf\xd3\n".to_vec();
+    let front_off = f.len();
+    // pass 1: sizes with placeholder offsets
+    let mut a_entries: BTreeMap<u32, (usize, u16)> = a.iter().map(|id| (id.0, (0usize, id.1))).collect();
+    let mut t1 = trailer.clone();
+    t1.set("Size", Object::Integer(size as i64));
+    let front_len = |a_entries: &BTreeMap<u32, (usize, u16)>, prev: usize| -> Vec<u8> {
+        let mut v = table_section(a_entries, false);
+        v.extend_from_slice(b"trailer\n");
+        v.extend_from_slice(&refpdf::dict_bytes(&t1));
+        // fixed-width Prev so that the layout does not depend on its value
+        let text = String::from_utf8(v).unwrap().replacen(">>", &format!("/Prev {:010}>>", prev), 1);
+        let mut v = text.into_bytes();
+        v.extend_from_slice(b"\n");
+        v
+    };
+    let mut pos = front_off + front_len(&a_entries, 0).len();
+    let mut a_bytes = vec![];
+    for id in &a {
+        a_entries.insert(id.0, (pos + a_bytes.len(), id.1));
+        a_bytes.extend_from_slice(&refpdf::indirect_bytes(*id, &objects[id]));
+    }
+    pos += a_bytes.len();
+    let mut b_entries: BTreeMap<u32, (usize, u16)> = BTreeMap::new();
+    let mut b_bytes = vec![];
+    for id in &b {
+        b_entries.insert(id.0, (pos + b_bytes.len(), id.1));
+        b_bytes.extend_from_slice(&refpdf::indirect_bytes(*id, &objects[id]));
+    }
+    let main_off = pos + b_bytes.len();
+    f.extend_from_slice(&front_len(&a_entries, main_off));
+    f.extend_from_slice(&a_bytes);
+    f.extend_from_slice(&b_bytes);
+    assert_eq!(f.len(), main_off);
+    f.extend_from_slice(&table_section(&b_entries, true));
+    let mut t2 = Dictionary::new();
+    t2.set("Size", Object::Integer(size as i64));
+    f.extend_from_slice(b"trailer\n");
+    f.extend_from_slice(&refpdf::dict_bytes(&t2));
+    f.extend_from_slice(format!("\nstartxref\n{}\n%%EOF\n", front_off).as_bytes());
+    // appended revisions
+    let mut prev = front_off;
+    let mut next_new = size;
+    for (j, r) in hist.iter().enumerate() {
+        let mut entries: BTreeMap<u32, (usize, u16)> = BTreeMap::new();
+        for (bit, id) in designated.iter().enumerate() {
+            if r.mask & (1 << bit) != 0 {
+                let o = replacement(*id, j + 1, matches!(objects[id], Object::Stream(_)));
+                entries.insert(id.0, (f.len(), id.1));
+                f.extend_from_slice(&refpdf::indirect_bytes(*id, &o));
+                model.insert(*id, o);
+            }
+        }
+        for _ in 0..r.add {
+            let id = (next_new, 0);
+            next_new += 1;
+            let o = Object::Dictionary(dict(vec![("New", Object::Integer(id.0 as i64)), ("Rev", Object::Integer(j as i64 + 1))]));
+            entries.insert(id.0, (f.len(), 0));
+            f.extend_from_slice(&refpdf::indirect_bytes(id, &o));
+            model.insert(id, o);
+        }
+        let x = f.len();
+        f.extend_from_slice(&table_section(&entries, entries.is_empty()));
+        let mut t = trailer.clone();
+        t.set("Size", Object::Integer(next_new as i64));
+        t.set("Prev", Object::Integer(prev as i64));
+        f.extend_from_slice(b"trailer\n");
+        f.extend_from_slice(&refpdf::dict_bytes(&t));
+        f.extend_from_slice(format!("\nstartxref\n{}\n%%EOF\n", x).as_bytes());
+        prev = x;
+    }
+    (f, model)
+}
+
+fn check_l(bk: usize, hist: &[Rev]) -> Result<(), (bool, String)> {
+    let (bytes, model) = linearized_history(bk, hist);
+    // self-check: the strict reader follows the same chain (its Prev rule "points before the current
+    // section" does not hold for the front section, so only the object recovery is compared)
+    let doc = util::load(&bytes).map_err(|e| (false, e))?;
+    if let Some(m) = cmp::diff_objects(&model, &doc.objects) {
+        return Err((false, m));
+    }
+    let (_, trailer, _) = base(bk);
+    if let Some(m) = cmp::diff_trailer(&trailer, &doc.trailer) {
+        return Err((false, m));
+    }
+    Ok(())
+}
+
 fn enumerate(menu: &[Rev], k: usize) -> Vec<Vec<Rev>> {
     let mut out: Vec<Vec<Rev>> = vec![vec![]];
     let mut level: Vec<Vec<Rev>> = vec![vec![]];
@@ -301,8 +435,10 @@ fn main() {
             .collect();
         let bk = c["base"].as_u64().unwrap() as usize;
         let table = c["style"].as_str() == Some("table");
-        let res = if c["producer"].as_str() == Some("A") {
-            check_a(bk, if table { Style::Table } else { Style::Stream }, &hist, c["container_base"].as_bool().unwrap_or(false), true).err().map(|e| e.1)
+        let res = if c["producer"].as_str() == Some("L") {
+            check_l(bk, &hist).err().map(|e| e.1)
+        } else if c["producer"].as_str() == Some("A") {
+            check_a_order(bk, if table { Style::Table } else { Style::Stream }, &hist, c["container_base"].as_bool().unwrap_or(false), true, c["member_order"].as_u64().unwrap_or(0) as usize).err().map(|e| e.1)
         } else {
             check_b(bk, table, &hist).err()
         };
@@ -336,7 +472,22 @@ fn main() {
                     if h.iter().any(|r| r.mask != 0) {
                         run.nontrivial(1);
                     }
-                    match check_a(bk, style, h, container_base, i % 16 == 0 || h.len() < 2) {
+                    // histories that use object streams are also rendered with the members of every
+                    // object stream listed in descending / rotated order
+                    let orders: &[usize] = if style == Style::Stream && (container_base || h.iter().any(|r| r.objstm)) { &[0, 1, 2] } else { &[0] };
+                    let mut outcome = Ok(());
+                    let mut failing_order = 0;
+                    for mo in orders {
+                        if *mo > 0 {
+                            run.eval(1);
+                        }
+                        outcome = check_a_order(bk, style, h, container_base, i % 16 == 0 || h.len() < 2, *mo);
+                        if outcome.is_err() {
+                            failing_order = *mo;
+                            break;
+                        }
+                    }
+                    match outcome {
                         Ok(()) => run.add_traces(1),
                         Err((true, m)) => {
                             eprintln!("MACHINERY: reference history self-check failed (base {} {:?} {:?}): {}", bk, style, h, m);
@@ -346,11 +497,29 @@ fn main() {
                             let f = classify_a(bk, style, h, container_base);
                             run.fail(
                                 f,
-                                json!({"producer": "A", "base": bk, "style": if style == Style::Table {"table"} else {"stream"}, "container_base": container_base, "history": hist_json(h)}),
+                                json!({"producer": "A", "base": bk, "style": if style == Style::Table {"table"} else {"stream"}, "container_base": container_base, "member_order": failing_order, "history": hist_json(h)}),
                                 &m,
                                 "each object number resolves to the most recent revision that defines it",
                             );
                         }
+                    }
+                });
+            }
+            // producer L: linearized-like base (front section chaining to the main one) + appended revisions
+            if style == Style::Table {
+                let hl = enumerate(&menu, k);
+                run.add_states(hl.len() as u64);
+                run.add_transitions(hl.len() as u64 - 1);
+                util::par_for(hl.len(), |i| {
+                    run.eval(1);
+                    match check_l(bk, &hl[i]) {
+                        Ok(()) => run.add_traces(1),
+                        Err((_, m)) => run.fail(
+                            None,
+                            json!({"producer": "L", "base": bk, "style": "table", "history": hist_json(&hl[i])}),
+                            &m,
+                            "objects listed by a front cross-reference section that chains to the main section keep resolving after revisions are appended",
+                        ),
                     }
                 });
             }
